@@ -223,7 +223,16 @@ func newSrv(o SrvOpts) *Srv {
 }
 
 func (s *Srv) Close() {
-	s.S.Close()
+	// Server.Close takes the server lock: on a wedged node it would never return, and the verdict on the
+	// wedge must still get out, so it is given two seconds.
+	closed := make(chan struct{})
+	go func() { s.S.Close(); close(closed) }()
+	select {
+	case <-closed:
+	case <-time.After(2 * time.Second):
+		s.C.Close()
+		return
+	}
 	// Server.Close closes the socket from a goroutine; wait until the serve loop is gone so that no
 	// goroutine of this case outlives it.
 	deadline := time.Now().Add(5 * time.Second)
